@@ -19,6 +19,7 @@ META = {
         "mixed containers use the REAL ThreeFieldVariation / NearlyIncompressible wrappers around the abstract material",
         "SolidBodyNearlyIncompressible at a settled state (state.u = u, J = v/V, p = bulk (J-1), reached by the item's own update called twice)",
         "contact: one slave point, every feasible sign pattern away from the switching point is a path",
+        "follower pressure at a load level handed over by keyword: item created at p0, matrix(field, pressure=p1) requested first, compared with d vector(field, pressure=p1)/du (p0, p1 symbolic)",
     ],
     "outside": ["mixed (u, p, J) containers on hex8 for both wrappers and on axisymmetric fields with ThreeFieldVariation (tried in the thorough tier: not decided within 90 min per case)", "other meshes (no induction over mesh size)", "materials violating the abstract assumption", "apply= callbacks", "IEEE rounding"],
     "assumptions": ["det F > 0 is not needed for the identities with an abstract material (they are polynomial in u)"],
@@ -113,7 +114,7 @@ def unknowns(ctx, field, spread=0.2, J_index=None):
 TOL = dict(tol=1e-9, box={"atom:uf": (-1, 1), "atom:root": (0.01, 100)})  # relative to max |material response| (the identities are linear in the atoms)
 
 
-def check_item(ctx, field, make_item, x, W=None, symmetric=False, evaluate_twice=False, name="", abstract_area=False, tol=None, box=None):
+def check_item(ctx, field, make_item, x, W=None, symmetric=False, evaluate_twice=False, name="", abstract_area=False, tol=None, box=None, load_kw=None):
     install(ctx, field, x)
     item = make_item()
     restore = None
@@ -128,24 +129,30 @@ def check_item(ctx, field, make_item, x, W=None, symmetric=False, evaluate_twice
             restore = (H, H.det)
             H.det = item._area_change.det
     try:
-        return _check_item(ctx, field, item, x, W, symmetric, evaluate_twice, name, tol, box)
+        return _check_item(ctx, field, item, x, W, symmetric, evaluate_twice, name, tol, box, load_kw)
     finally:
         if restore:
             restore[0].det = restore[1]
 
 
-def _check_item(ctx, field, item, x, W, symmetric, evaluate_twice, name, tol, box):
+def _check_item(ctx, field, item, x, W, symmetric, evaluate_twice, name, tol, box, load_kw=None):
+    kw = load_kw or {}
 
     def vec(xv):
         install(ctx, field, xv)
-        r = item.assemble.vector(field)
+        r = item.assemble.vector(field, **kw)
         if evaluate_twice:
-            r = item.assemble.vector(field)
+            r = item.assemble.vector(field, **kw)
         return dense(ctx, r).reshape(-1)
 
     install(ctx, field, x)
-    r0 = vec(x)  # brings history-type items to the state belonging to x
-    K = dense(ctx, item.assemble.matrix(field))
+    if load_kw:
+        # a new load level handed over by keyword: the matrix is requested FIRST at that level (no vector call at it before)
+        K = dense(ctx, item.assemble.matrix(field, **kw))
+        r0 = vec(x)
+    else:
+        r0 = vec(x)  # brings history-type items to the state belonging to x
+        K = dense(ctx, item.assemble.matrix(field))
     n = len(x)
     ctx.check_concrete("shapes" + name, K.shape == (n, n) and r0.shape == (n,))
     ctx.equal("matrix_is_derivative_of_vector" + name, K, ctx.jacobian(vec, x), linear_in=W, rtol_replay=2e-5, tol=tol, box=box)
@@ -255,6 +262,9 @@ def case_surface_load(ctx, family, which, kind="Field"):
     if which == "pressure":
         p = ctx.var("p", -3, 3)
         check_item(ctx, field, lambda: fem.SolidBodyPressure(field, pressure=p), x, W=None, abstract_area=True, **(TOL if kind == "Axisymmetric" else {}))
+    elif which == "pressure_keyword":
+        p0, p1 = ctx.var("p0", -3, 3), ctx.var("p1", -3, 3)
+        check_item(ctx, field, lambda: fem.SolidBodyPressure(field, pressure=p0), x, W=None, abstract_area=True, load_kw={"pressure": p1}, name="_at_keyword_load_level", **(TOL if kind == "Axisymmetric" else {}))
     else:
         S = ctx.array("sig", (3, 3) if kind == "Axisymmetric" else (m.dim, m.dim), -2, 2)
         check_item(ctx, field, lambda: fem.SolidBodyCauchyStress(field, cauchy_stress=S), x, W=None, abstract_area=True, **(TOL if kind == "Axisymmetric" else {}))
@@ -418,6 +428,10 @@ def cases(tier):
         out.append(("surface_load", case_surface_load, {"family": "quad4", "which": which}))
         out.append(("surface_load", case_surface_load, {"family": "hex8", "which": which}))
         out.append(("surface_load", case_surface_load, {"family": "quad4axi", "which": which, "kind": "Axisymmetric"}))
+    out.append(("surface_load", case_surface_load, {"family": "quad4", "which": "pressure_keyword"}))
+    out.append(("surface_load", case_surface_load, {"family": "quad4axi", "which": "pressure_keyword", "kind": "Axisymmetric"}))
+    if thorough:
+        out.append(("surface_load", case_surface_load, {"family": "hex8", "which": "pressure_keyword"}))
     out.append(("multipoint", case_multipoint, {"which": "mpc", "dim": 2}))
     out.append(("multipoint", case_multipoint, {"which": "contact", "dim": 2, "max_paths": 32}))
     if thorough:
